@@ -49,6 +49,14 @@ def gen_cases(tier, seed):
             c['ic'] = ['rho', 'sets', 'sets'][j % 3]
             c['full'] = (j // 3) % 2 == 0
             c['tcount'] = 5
+            if j % 4 == 1 and 'homogeneous' not in name:
+                # isolated nodes: degree class 0 is where guards such as `x[x==0] = 1` write into arrays (the caller's, if not copied)
+                g = dict(c['graph'])
+                g['n'] = g['n'] + 1 + (j % 2)
+                for kk in ('nw',):
+                    if g.get(kk):
+                        g[kk] = {a: ws + [1.0] * (g['n'] - len(ws)) for a, ws in g[kk].items()}
+                c['graph'] = g
             out.append(c)
     for name in MISC:
         for j in range(per):
